@@ -23,6 +23,9 @@ import SparseSpace.Drive.Util
     cc <i> <j>                     → id r | err <kind>         concatenate (r may be i or j)
     lc <ids>                       → id r | err <kind>         list_concatenate
     ss <i> <j>                     → true | false | err <kind> same_scaling
+    cp <i>                         → id r                      objs[i].copy()
+    mk <i>                         → id r                      DataSet(objs[i].get_data())
+    cells <i>                      → v=<n> l=<n>               identities of the value / label array of object i
 -/
 namespace SparseSpace.Drive.C18
 open SparseSpace.DSM SparseSpace.Drive
@@ -208,6 +211,30 @@ def step (P : Pool) (line : String) : Pool × String :=
         | (P', .ok .new) => (P', s!"id {n0}")
         | (P', .error e) => (P', fmtErr e)
       else (P, "bad-op")
+    | none => (P, "bad-op")
+  | ["cp", i] =>
+    match parseNat? i with
+    | some i =>
+      if i < P.objs.length then
+        let n0 := P.objs.length
+        match P.copy i with
+        | (P', .ok _) => (P', s!"id {n0}")
+        | (P', .error e) => (P', fmtErr e)
+      else (P, "bad-op")
+    | none => (P, "bad-op")
+  | ["mk", i] =>
+    match parseNat? i with
+    | some i =>
+      if i < P.objs.length then
+        let n0 := P.objs.length
+        match P.rebuild i with
+        | (P', .ok _) => (P', s!"id {n0}")
+        | (P', .error e) => (P', fmtErr e)
+      else (P, "bad-op")
+    | none => (P, "bad-op")
+  | ["cells", i] =>
+    match (parseNat? i).bind P.get? with
+    | some o => (P, s!"v={o.vcell} l={o.lcell}")
     | none => (P, "bad-op")
   | ["ss", i, j] =>
     match (parseNat? i).bind P.get?, (parseNat? j).bind P.get? with
